@@ -351,6 +351,7 @@ func main() {
 	c.Rep.Extra["seconds"] = time.Since(t0).Seconds()
 	c.Finish("BG 1.0 and CBnT 2.0 KM/BPM built with fiano constructors + bootguard.NewVData/GetBPMPubHash (random SVN/ID/revision/flags, 0-4 KM hashes, 0-6 IBB segments, 1-3 digests, optional TXT/PCD/PM/reserved elements), signed by SignKM/SignBPM with EVERY key size the tool generates in EVERY tier (RSA-2048 and RSA-3072 from GenRSAKey, as KM key and as BPM key, and both mixed-size pairs) x {RSASSA,RSAPSS} x {SHA256,SHA384,SHA1,SM3} and verified by NewKM/NewBPM+VerifyKM/VerifyBPM; " +
 		"the signing entry points called with NAMES in any letter case: null/unknown hash names (ALGNULL, ALGUNKNOWN) for the CBnT SignBPM with both schemes and both key sizes, null/unknown PubKeyHashAlg for the CBnT SignKM, hash arguments of the BG 1.0 SignBPM (which has no hash choice), scheme names the tool does not offer (refused, or signed so that it verifies), names that are not hashes and ECC P-224/P-256 keys from GenECCKey (outside the quantifier: counted; nothing unverifiable may be accepted); the two GetAlgFromString tables on 46 names; " +
+		"STRUCTURAL mutants of signed BPMs of both generations (rich manifests with every optional element and one or two IBB elements, RSA-2048 and RSA-3072, plus BPMs of the signing stage), cut at the documented structure IDs: every exchange of neighbouring elements (header and signature element included), wider exchanges, reversal, moves, every element left out, repeated behind itself and elsewhere, a chunk of StructInfo size with an unknown structure ID at every boundary (also several, with an exchange, with a payload) -- judged through NewBPM, NewBPMAndKM and NewBPMAndKMFromBIOS (file inside a hand-written firmware image) + VerifyBPM; SESSIONS: one per hardware-free entry point of pkg/provisioning/bootguard (42), the entry point called with every generation x argument variant (succeeding and failing calls: missing / random / valid images, manifests with exchanged elements, truncated KMs, unknown names, nil arguments), other entry points in between, and after EVERY call a panel (signed BPM of each generation, 6 structural mutants of each incl. an exchange of neighbours, bit-flipped BPMs, a signed KM and a bit-flipped KM) judged again; the same mutants under the configuration the tools' main() sets up by default (cbnt.StrictOrderCheck=false); the process configuration read after every call; " +
 		"single-bit mutants of signed files (quick: per kind and key size all bits of 2 resp. 1 files, a stride over 3 more; thorough: all bits of every file); KM x BPM key pairs over five keys of both sizes for KMHasBPMHash/BPMKeyMatchKMHash, on structures and through NewBPMAndKM on files; life cycles of ONE manifest object (KM: fresh / without hash / parsed from a signed file / written and read back / the shipped artifact, then 3-8 steps of GetBPMPubHash with another key (either size, ECC P-256) or algorithm, failing GetBPMPubHash calls (unknown name, non-hash name, null name, empty name, ed25519 and P-224 keys), SignKM, WriteKM+NewKM, KMSVN change, ending with SignKM; BPM: signed (explicit or null hash name), re-read, BPMSVN change, signed again with another key/scheme) with the binding check on the structures after every GetBPMPubHash and through NewBPMAndKM on the files after every signing, judged against the LAST key placed / LAST signer (ECC: must fail closed), plus Verify on the object and on its written file after every change; 13x13 password pairs, bit flips and truncations of the wrapped key; DetectBGV and unknown-Version cases. " +
 		"A case is non-trivial when it reaches a signature/hash/AEAD decision; distinct = distinct Gallina literal. Sweeps are oracle checks; a sample of mutants becomes correspondence cases.")
 }
